@@ -15,6 +15,7 @@ import (
 // commands; the leader goes away and the node is promoted; the client goes on using the connection and then ends
 // it: the wills must run once, on the node that is leader now.
 type c18PromCase struct {
+	Demotion bool `json:"demotion,omitempty"` // the other way round: the connection is made to the leader, which then steps down and follows the promoted follower
 	Text  bool   `json:"text"`
 	Wills int    `json:"wills"`
 	Use   bool   `json:"use"`   // the client sends one more request over the connection after the promotion
@@ -22,6 +23,9 @@ type c18PromCase struct {
 }
 
 func (k c18PromCase) name() string {
+	if k.Demotion {
+		return fmt.Sprintf("demotion/text=%v/wills=%d/used-after=%v/%s", k.Text, k.Wills, k.Use, k.Cause)
+	}
 	return fmt.Sprintf("promotion/text=%v/wills=%d/used-after=%v/%s", k.Text, k.Wills, k.Use, k.Cause)
 }
 
@@ -31,7 +35,9 @@ func c18PromCases(quick bool) []EnumCase {
 		for w := 1; w <= 3; w++ {
 			for _, use := range []bool{false, true} {
 				for _, cause := range []string{"client-close", "protocol-error"} {
-					k := c18PromCase{text, w, use, cause}
+					k := c18PromCase{false, text, w, use, cause}
+					out = append(out, mkCase(k.name(), k))
+					k.Demotion = true
 					out = append(out, mkCase(k.name(), k))
 				}
 			}
@@ -57,7 +63,11 @@ func evalC18Prom(c *Ctx, cs EnumCase) EnumResult {
 			return
 		}
 		fol := cl.Nodes[1]
-		v, _ := wire.Dial(cl.Addrs[1])
+		vaddr := cl.Addrs[1]
+		if k.Demotion {
+			vaddr = cl.Addrs[0]
+		}
+		v, _ := wire.Dial(vaddr)
 		willKey := func(i int) [16]byte {
 			if k.Text {
 				return normKey(fmt.Sprintf("pw%d", i))
@@ -80,11 +90,24 @@ func evalC18Prom(c *Ctx, cs EnumCase) EnumResult {
 			vrt.Quiesce()
 		}
 		vrt.AdvanceTo(vrt.Elapsed() + 300*ms)
-		// the leader goes away, the follower is promoted
-		vrt.KillGroup("n0")
-		vrt.AdvanceTo(vrt.Elapsed() + 200*ms)
-		fol.Poke("promote")
-		vrt.AdvanceTo(vrt.Elapsed() + 2*sec)
+		if k.Demotion {
+			// the follower is promoted, the leader steps down and follows it
+			fol.Poke("promote")
+			vrt.AdvanceTo(vrt.Elapsed() + 200*ms)
+			cl.Nodes[0].Poke("changeleader", cl.Addrs[1])
+			cl.Nodes[0].Poke("demote", cl.Addrs[1])
+			vrt.AdvanceTo(vrt.Elapsed() + 3*sec)
+			if st, _ := cl.Nodes[0].Poke("state").(int); st == 1 {
+				engErr = "the old leader did not step down"
+				return
+			}
+		} else {
+			// the leader goes away, the follower is promoted
+			vrt.KillGroup("n0")
+			vrt.AdvanceTo(vrt.Elapsed() + 200*ms)
+			fol.Poke("promote")
+			vrt.AdvanceTo(vrt.Elapsed() + 2*sec)
+		}
 		if st, _ := fol.Poke("state").(int); st != 1 { // STATE_LEADER
 			engErr = fmt.Sprintf("the follower was not promoted (state %d)", st)
 			return
@@ -125,7 +148,9 @@ func evalC18Prom(c *Ctx, cs EnumCase) EnumResult {
 		vrt.AdvanceTo(vrt.Elapsed() + 1*sec)
 		for i := 0; i < k.Wills; i++ {
 			obs += fmt.Sprintf("will%d:%d ", i, held(i))
-			if held(i) != 1 {
+			if held(i) != 1 && k.Demotion {
+				add("will-not-run-once/connection-older-than-demotion", fmt.Sprintf("the connection was made while the node was the leader and ended after it had stepped down: will %d was executed %d times on the new leader", i, held(i)))
+			} else if held(i) != 1 {
 				add("will-not-run-once/connection-older-than-promotion", fmt.Sprintf("the connection was made while the node was a follower and ended after its promotion: will %d was executed %d times on the new leader", i, held(i)))
 			}
 		}
